@@ -165,7 +165,7 @@ CHECKS = [
           " Also: Jrpc.Forwarder (as C07) and Jrpc.Sweep (order of the sweeps on the exit and reconnect paths); a stale subscription context cancelled after a reconnect must not touch the subscription that reuses its channel id. Fourth round: a subscription through a proxy field without a context parameter, client in a child process (F23).",
   "design_ref": "DESIGN.md §6 C08",
   "note": TB + " PARTIAL: 'eventually closed' = enabledness + fairness; observed with time-outs. F12 (sink registered after the sweep) is decided by the C03 scenarios: the subscribing call then fails and no channel is handed out.",
-  "technique": "Lean 4 theorems + translation theorems over the regenerated MiniGo programs (ChanMessage, ChanClose) (prefix invariant, close-once, crash-freedom by induction over events) + regenerated skeleton facts + hook-trace inclusion"},
+  "technique": "Lean 4 theorems + translation theorems over the regenerated MiniGo programs (ChanMessage, ChanClose, CloseChans) (prefix invariant, close-once, crash-freedom by induction over events) + regenerated skeleton facts + hook-trace inclusion"},
  {"property_id": "C02",
   "text": "Theorems over the correlation model (callers, main loop, frame executor, sweep, reconnect, exit; one event per hook site; ~35 "
           "invariant clauses preserved by all 24 events): whatever a caller takes from its ready channel is the connection error, its own "
@@ -207,7 +207,7 @@ CHECKS = [
           " Also: the closer fired while the redial goroutine is about to sleep, contexts cancelled at the moment of the close, a subscriber twelve thousand values behind at the close. Fourth round: close after 0/1/2 reconnects with a goroutine dump for keepalive goroutines (F38).",
   "design_ref": "DESIGN.md §6 C18",
   "note": TB + " PARTIAL: completion = safety form + fairness; observed with time-outs.",
-  "technique": "Lean 4 theorems + translation theorems over the regenerated MiniGo programs (Sweep) (exit-path enabledness, post-exit invariant) + regenerated skeleton facts + hook-trace inclusion + gated closes"},
+  "technique": "Lean 4 theorems + translation theorems over the regenerated MiniGo programs (Sweep, CloseChans) (exit-path enabledness, post-exit invariant) + regenerated skeleton facts + hook-trace inclusion + gated closes"},
  {"property_id": "C06",
   "text": "Theorems over the server-role model (handler contexts derived from the connection context, the handling map, cancel frames, "
           "done(keepCtx), the sweep, connection end): executing xrpc.cancel [id] cancels exactly the handler registered under id and changes "
